@@ -83,13 +83,16 @@ func genTRRefsAlpha(r *rand.Rand) []v1alpha1.TrafficRoutingRef {
 	var out []v1alpha1.TrafficRoutingRef
 	for i := 0; i < r.Intn(3); i++ {
 		tr := v1alpha1.TrafficRoutingRef{Service: pick(r, "svc", "web"), GracePeriodSeconds: int32(r.Intn(10))}
-		switch r.Intn(4) {
-		case 0:
+		// the blocks are independent: the schema admits several of them in one entry (the manager then builds a composite provider)
+		k := r.Intn(6)
+		if k == 0 || k == 4 || k == 5 {
 			tr.Ingress = &v1alpha1.IngressTrafficRouting{ClassType: pick(r, "nginx", "alb", ""), Name: "ing" + strconv.Itoa(r.Intn(3))}
-		case 1:
+		}
+		if k == 1 || k == 4 {
 			n := "route" + strconv.Itoa(r.Intn(3))
 			tr.Gateway = &v1alpha1.GatewayTrafficRouting{HTTPRouteName: &n}
-		case 2:
+		}
+		if k == 2 || k == 5 {
 			for j := 0; j <= r.Intn(2); j++ {
 				tr.CustomNetworkRefs = append(tr.CustomNetworkRefs, v1alpha1.CustomNetworkRef{APIVersion: "networking.istio.io/v1alpha3", Kind: pick(r, "VirtualService", "DestinationRule"), Name: "n" + strconv.Itoa(j)})
 			}
@@ -171,6 +174,20 @@ func genAlphaRollout(r *rand.Rand, tier string) *v1alpha1.Rollout {
 			PodTemplateHash: "pth" + strconv.Itoa(r.Intn(99)), CanaryReplicas: int32(10 + r.Intn(9)), CanaryReadyReplicas: int32(20 + r.Intn(9)),
 			NextStepIndex: int32(30 + r.Intn(9)), CurrentStepIndex: int32(40 + r.Intn(9)), CurrentStepState: v1alpha1.CanaryStepState(pick(r, "StepUpgrade", "StepPaused", "StepReady")),
 			Message: "cm" + strconv.Itoa(r.Intn(9)), LastUpdateTime: &ts, FinalisingStep: v1alpha1.FinalizeStateType(pick(r, "", "FinalisingStepTypeGateway"))}
+		// zero is a value like any other (nextStepIndex 0 = "no jump requested", 0 canary replicas, generation 0)
+		cs := ro.Status.CanaryStatus
+		if chance(r, 20) {
+			cs.NextStepIndex = 0
+		}
+		if chance(r, 10) {
+			cs.CurrentStepIndex = 0
+		}
+		if chance(r, 10) {
+			cs.CanaryReplicas, cs.CanaryReadyReplicas = 0, 0
+		}
+		if chance(r, 10) {
+			cs.ObservedWorkloadGeneration = 0
+		}
 	}
 	return ro
 }
@@ -261,6 +278,9 @@ func (convertEngine) Gen(r *rand.Rand, idx int, tier string) any {
 			}
 			b.Spec.Strategy.Canary.EnableExtraWorkloadForCanary = chance(r, 50)
 			b.Spec.Strategy.Canary.TrafficRoutingRef = pick(r, "", "tr-x")
+			if cs := b.Status.CanaryStatus; cs != nil && chance(r, 30) {
+				cs.NextStepIndex = pick(r, int32(0), int32(-1), int32(2))
+			}
 			if tier != "fixed" && chance(r, 5) {
 				b.Spec.Strategy.Canary = nil // schema-admitted: empty strategy
 			}
